@@ -243,7 +243,7 @@ func (g *Gen) applyCalleeSpec(st *State, cs *CalleeSpec, c *ssa.CallCommon, recv
 	return g.applyContract(st, contractApp{
 		what: "callee " + cs.Name, binds: binds, requires: cs.Requires, ensures: cs.Ensures, sets: cs.Sets,
 		mod: cs.Modifies, pure: cs.Pure, havocAll: cs.Havoc || (cs.Modifies == nil && !cs.Pure), rt: rt, resultNames: cs.Results,
-		clausePrefix: "callee " + cs.Name + " ", ownNames: true,
+		clausePrefix: "callee " + cs.Name + " ", ownNames: true, mutGhosts: cs.MutGhosts,
 	})
 }
 
@@ -276,6 +276,32 @@ func (g *Gen) applyFuncSpec(st *State, fs *FuncSpec, fn *ssa.Function, args []Va
 	if fs.Trusted && !g.discovery {
 		g.trustedUsed["lib contract: "+fs.Name] = true
 	}
+	// logical / ghost variables of the callee
+	var mut []string
+	for _, gd := range fs.Ghosts {
+		var bexpr Expr
+		if g.spec != nil {
+			for _, k := range []string{fn.Name(), fs.Name} {
+				if m, ok := g.spec.Binds[k]; ok {
+					if e, ok := m[gd.Name]; ok {
+						bexpr = e
+					}
+				}
+			}
+		}
+		if bexpr != nil {
+			binds[gd.Name] = g.evalSpec(&specCtx{g: g, st: st, old: st, binds: binds, calleeOnly: true}, bexpr)
+			continue
+		}
+		if _, ok := st.ghosts[gd.Name]; !ok {
+			g.unsupported("call of " + fs.Name + ": callee ghost " + gd.Name + " is neither bound (bind) nor a ghost of the caller")
+		}
+	}
+	for _, m := range fs.MutGhosts {
+		if _, ok := st.ghosts[m]; ok {
+			mut = append(mut, m)
+		}
+	}
 	pure := fs.Pure
 	havoc := false
 	if fs.Modifies == nil && !pure {
@@ -287,7 +313,7 @@ func (g *Gen) applyFuncSpec(st *State, fs *FuncSpec, fn *ssa.Function, args []Va
 	}
 	return g.applyContract(st, contractApp{
 		what: "call " + fs.Name, binds: binds, requires: fs.Requires, ensures: fs.Ensures, mod: fs.Modifies, pure: pure, havocAll: havoc,
-		rt: rt, resultNames: rn, clausePrefix: "call " + fs.Name + " ", calleeGhosts: fs.Ghosts,
+		rt: rt, resultNames: rn, clausePrefix: "call " + fs.Name + " ", calleeGhosts: fs.Ghosts, mutGhosts: mut,
 	})
 }
 
@@ -305,6 +331,7 @@ type contractApp struct {
 	clausePrefix string
 	ownNames     bool // callee clause inside this function's spec: caller's locals are visible
 	calleeGhosts []*GhostDecl
+	mutGhosts    []string
 }
 
 func (g *Gen) applyContract(st *State, a contractApp) Val {
@@ -338,6 +365,10 @@ func (g *Gen) applyContract(st *State, a contractApp) Val {
 		}
 	case a.havocAll:
 		g.havocAll(st)
+	}
+	for _, m := range a.mutGhosts {
+		st.ghosts[m] = g.havocGhost(m, st.ghosts[m])
+		g.noteGhostWrite(m)
 	}
 	// results
 	var res Val
